@@ -1,0 +1,95 @@
+// SPDX-License-Identifier: MIT
+
+#ifndef _FIBER_VERIF_H_
+#define _FIBER_VERIF_H_
+
+/*
+    Description: optional observation points for external runtime monitors.
+                 Everything in this header is inert unless the library (and the
+                 translation units including the header-only containers) are
+                 built with -DFIBER_VERIF. With the guard on, every
+                 FIBER_VERIF_POINT() costs one load and one predictable branch
+                 while no hook is installed (no fence is added).
+*/
+
+#ifdef FIBER_VERIF
+
+#include <stdint.h>
+
+#ifdef __cplusplus
+extern "C" {
+#endif
+
+typedef void (*fiber_verif_hook_t)(int point, const void* a, const void* b);
+
+// NULL means "no monitor installed"
+extern fiber_verif_hook_t volatile fiber_verif_hook;
+
+// total number of entries currently sitting in all run queues
+extern long fiber_verif_runqueue_total(void);
+
+#ifdef __cplusplus
+}
+#endif
+
+#define FIBER_VERIF_POINT(p, a, b)                                           \
+  do {                                                                       \
+    fiber_verif_hook_t const fv_h_ = fiber_verif_hook;                       \
+    if (fv_h_) {                                                             \
+      fv_h_((p), (const void*)(uintptr_t)(a), (const void*)(uintptr_t)(b)); \
+    }                                                                        \
+  } while (0)
+
+#else
+
+#define FIBER_VERIF_POINT(p, a, b) ((void)0)
+
+#endif  // FIBER_VERIF
+
+// point identifiers (stable numbering; a = first argument, b = second)
+#define FV_SWITCH_PRE 1           // old fiber, new fiber (before the swap)
+#define FV_SWITCH_POST 2          // old fiber, new fiber (on the successor)
+#define FV_MAINT_PUBLISH 3        // (intptr_t) FV_MAINT_* kind, object
+#define FV_SCHEDULE 4             // scheduler, fiber (before the push)
+#define FV_SCHEDULED 5            // scheduler, fiber (after the push)
+#define FV_STEAL 6                // thief scheduler, stolen fiber
+#define FV_SAVING_SKIP 7          // scheduler, fiber
+#define FV_IDLE 8                 // manager, -
+#define FV_FIBER_CREATE 9         // fiber, (intptr_t) 1 if created from thread
+#define FV_FIBER_DESTROY 10       // fiber, -
+#define FV_WAIT_MPSC_PRE_PUSH 11  // fifo, fiber
+#define FV_WAIT_MPMC 12           // fifo, fiber
+#define FV_MPSC_MID 13            // fifo, node
+#define FV_SPSC_MID 14            // fifo, node
+#define FV_MPMC_PUSH_MID 15       // fifo, node
+#define FV_MPMC_POP_PRE_CAS 16    // fifo, head node
+#define FV_RB_PUSH_MID 17         // ring buffer / channel, (intptr_t) index
+#define FV_RB_POP_MID 18          // ring buffer, (intptr_t) index
+#define FV_WSD_POP_MID 19         // deque, -
+#define FV_WSD_STEAL_PRE_CAS 20   // deque, -
+#define FV_WSD_GROW 21            // deque, new array
+#define FV_CAS2_PRE 22            // location, -
+#define FV_CPU_RELAX 23           // -, -
+#define FV_SIGNAL_WAIT_REGISTERED 24  // signal, fiber
+#define FV_WQ_PUSH_MID 25         // work queue, item
+#define FV_WQ_RETIRE_PRE_SUB 26   // work queue, -
+#define FV_SLEEP_REGISTERED 27    // fiber, pointer to wake tick (uint64_t)
+#define FV_FD_WAIT_REGISTERED 28  // (intptr_t) fd, fiber
+#define FV_HP_SCAN_SNAPSHOT 29    // record, -
+#define FV_TIMER_TICKS 30         // pointer to current tick count (uint64_t), -
+#define FV_FIBER_FINISHING 31     // fiber, - (run function returned)
+#define FV_SPIN_TICKET 32         // spinlock, (intptr_t) ticket taken
+#define FV_WAKE_SPIN 33           // fifo, - (waker found announced waiter not enqueued)
+#define FV_SET_AND_WAIT 34        // location, fiber
+#define FV_SCHED_SWAP 35          // scheduler, - (run queues swapped)
+#define FV_POINT_MAX 36
+
+#define FV_MAINT_DONE_FIBER 1
+#define FV_MAINT_TO_SCHEDULE 2
+#define FV_MAINT_MPMC_PUSH 3
+#define FV_MAINT_MPSC_PUSH 4
+#define FV_MAINT_MUTEX_UNLOCK 5
+#define FV_MAINT_SPIN_UNLOCK 6
+#define FV_MAINT_SET_WAIT 7
+
+#endif
